@@ -658,9 +658,20 @@ M.contract(_P_STF + '.write', params=dict(self=SPOOLED, s=Str),
                'size unchanged': lambda self, old: self._max_size == old[2],
            }, raises_only=())
 
+def _consume_iter(interp, it, tag):
+    """the callee reads from the iterator it is given: its position afterwards is arbitrary, not before the old one"""
+    from pyvc import models
+    from pyvc.values import to_z3, wrap
+    it = models.as_siter(interp, it)
+    p0 = to_z3(it.pos) if not isinstance(it.pos, int) else z3.IntVal(it.pos)
+    p1 = interp.st.fresh_int(tag + '.pos')
+    interp.st.assume(z3.And(p1 >= p0, p1 <= it.xs.length))
+    it.pos = wrap(p1)
+
+
 M.contract(_P_STF + '.writelines', params=dict(self=SPOOLED, lines=IterOf(Str)),
            old=lambda self, lines: (spooled_written(self), self._path is None, self._max_size, join_of(peek(lines))),
-           modifies={'self': InPlaceBy(_havoc_spooled)},
+           modifies={'self': InPlaceBy(_havoc_spooled), 'lines': InPlaceBy(_consume_iter)},
            ensures={
                'appends the lines': lambda self, old: spooled_written(self) == old[0] + old[3],
                'invariant': lambda self: spooled_ok(self),
